@@ -1,8 +1,9 @@
 import TabulaModel.Model.XmlTree
 /-
 Model of tabula's ODT reader (odt/reader.go, document.go, tables.go, lists.go,
-resolver.go) as it is after the C16 fixes: streaming body walk, inline content in
-document order, heading level, nested lists, table spans. Core Lean only.
+resolver.go) as it is after the C16 fixes and the resource bounds of the C02 repairs
+(maxInlineDepth, maxSpaceRun, maxTableGridCells, maxCellSpan): streaming body walk, inline
+content in document order, heading level, nested lists, table spans. Core Lean only.
 
 Inputs: the authored trees of content.xml and (optionally) styles.xml.
 -/
@@ -39,16 +40,25 @@ def sTitle : Str := [116, 105, 116, 108, 101]
 def sSubtitle : Str := [115, 117, 98, 116, 105, 116, 108, 101]
 
 /-! ### decodeInlineContent: mixed content of text:p / text:h in document order -/
+
+/-- `maxSpaceRun` (odt/document.go): the longest run of spaces one `text:s` expands to -/
+def maxSpaceRun : Nat := 1024
+
+/-- the number of spaces of `<text:s text:c="…"/>`: `strconv.Atoi` succeeds and the value is
+positive: that many, but at most `maxSpaceRun` (`if count > maxSpaceRun { count = maxSpaceRun }`);
+anything else (absent, not a number, zero, negative, outside the 64-bit range): one -/
+def spaceRun (c : Str) : Nat :=
+  match atoi? c with
+  | some v => if 0 < v then min v.toNat maxSpaceRun else 1
+  | none => 1
+
 mutual
 /-- text one child of a paragraph-like element contributes -/
 def inlineNode : Node → Str
   | .text s => s
   | .elem tag attrs kids =>
     if localName tag == sSpan || localName tag == sA then inlineList kids
-    else if localName tag == sS then
-      (match parseNat? (attrOf attrs sC) with
-       | some c => List.replicate (if c > 0 then c else 1) 32
-       | none => [32])
+    else if localName tag == sS then List.replicate (spaceRun (attrOf attrs sC)) 32
     else if localName tag == sTab then [9]
     else if localName tag == sLineBreak then [10]
     else []
@@ -270,12 +280,111 @@ def spanRows (cc : Nat) : List (List Cell) → List Nat → List (List Cell)
 def processRowSpans (rows : List (List Cell)) : List (List Cell) :=
   spanRows (colCount rows) rows (List.replicate (colCount rows) 0)
 
-def parseTable (tbl : Node) : List (List Cell) := processRowSpans (parseRows tbl)
+/-- `maxTableGridCells` (odt/tables.go): the largest grid, rows x spanned columns, on which
+spans are honoured -/
+def maxTableGridCells : Nat := 1048576
+
+/-- `spans` of `limitTableGrid`: some cell spans more than one column or row -/
+def hasSpans (rows : List (List Cell)) : Bool :=
+  rows.any fun row => row.any fun c => decide (c.colSpan > 1) || decide (c.rowSpan > 1)
+
+/-- `limitTableGrid`: a table that has spans, a width `cols > 0` and more than
+`maxTableGridCells / cols` rows (integer division: rows x cols > 2^20) has every column and row
+span set to 1; any other table is left as it is. Runs before `processRowSpans`. -/
+def limitTableGrid (rows : List (List Cell)) : List (List Cell) :=
+  if !hasSpans rows || colCount rows == 0 || decide (rows.length ≤ maxTableGridCells / colCount rows) then rows
+  else rows.map fun row => row.map fun c => { c with colSpan := 1, rowSpan := 1 }
+
+/-- `ParseTable`: the rows as authored, `limitTableGrid`, then `processRowSpans` -/
+def parseTable (tbl : Node) : List (List Cell) := processRowSpans (limitTableGrid (parseRows tbl))
+
+/-! ### where the decoders of a body element descend, and where they give up
+
+`parseBodyElements` hands every `text:p`, `text:h`, `text:list` and `table:table` of the body
+to `decoder.DecodeElement`. What is decoded below such an element: the inline content of a
+paragraph or heading by `decodeInlineContentAt` (descends into `text:span` / `text:a`, one
+level of recursion each, refused beyond `maxInlineDepth`), a list by encoding/xml
+(`listXML` / `listItemXML`: items, their `text:p` and nested `text:list`), a table by
+`tableXML.UnmarshalXML` (rows, grouping elements, cells, their `text:p`). Every other child
+is skipped unread. When the depth check fails the error travels up through all of them,
+`DecodeElement` fails, `parseBodyElements` says `continue` - the element is dropped - and goes on
+reading tokens FROM WHERE THE DECODER STANDS: right behind the start tag that was refused.
+It does so up to the end tag of the PARAGRAPH the decoder gave up in, no further: encoding/xml
+marks the decoder's stack below every element it hands to an `UnmarshalXML` method
+(`pushEOF`; `paragraphXML` and `headingXML` have one), takes the mark off only when the method
+succeeds, and `Token` answers `io.EOF` as soon as a mark is on top - which ends the loop of
+`parseBodyElements`. Everything behind that paragraph (the rest of its list or table, the rest
+of the body) is never read. -/
+
+/-- `maxInlineDepth` (odt/document.go) -/
+def maxInlineDepth : Nat := 10000
+
+/-- which decoder reads the children of the current element -/
+inductive Ctx where
+  | inline (depth : Nat)   -- decodeInlineContentAt(d, style, depth): text:p / text:h / text:span / text:a
+  | list                   -- listXML: children of text:list
+  | item                   -- listItemXML: children of text:list-item
+  | table                  -- tableXML.UnmarshalXML: children of table:table and of its grouping elements
+  | row                    -- tableRowXML: children of table:table-row
+  | cell                   -- tableCellXML: children of table:table-cell
+deriving Repr, DecidableEq
+
+/-- the decoder reads the inline content of a paragraph or heading -/
+def Ctx.isInline : Ctx → Bool
+  | .inline _ => true
+  | _ => false
+
+/-- what a decoder does with a child element -/
+inductive Step where
+  | skip                   -- not read (`d.Skip()`, no struct field) or read without descending
+  | fail                   -- `decodeInlineContentAt` is entered with a depth beyond `maxInlineDepth`
+  | into (c : Ctx)         -- its children are read by `c`
+deriving Repr, DecidableEq
+
+/-- the decoder `ctx` meets a child element with local name `loc`. `decodeInlineContentAt`
+calls itself with `depth+1` for `span` / `a`, and the callee's first statement is
+`if depth > maxInlineDepth { return nil, error }`. -/
+def descend : Ctx → Str → Step
+  | .inline d, loc =>
+    if loc == sSpan || loc == sA then (if d + 1 > maxInlineDepth then .fail else .into (.inline (d + 1))) else .skip
+  | .list, loc => if loc == sListItem then .into .item else .skip
+  | .item, loc => if loc == sP then .into (.inline 0) else if loc == sList then .into .list else .skip
+  | .table, loc =>
+    if loc == sTableRow then .into .row else if tableGroups.contains loc then .into .table else .skip
+  | .row, loc => if loc == sTableCell then .into .cell else .skip
+  | .cell, loc => if loc == sP then .into (.inline 0) else .skip
+
+mutual
+/-- decoding a child with `ctx`: `none` when it is read to its end; when the depth check
+fails below it, the nodes that are still read afterwards, in document order: what comes after
+the refused start tag inside the paragraph the decoder gave up in (the children of the refused
+element, then what follows it at every level up to the end of that paragraph - not what
+follows the paragraph in its list item, cell or table) -/
+def residualNode (ctx : Ctx) : Node → Option (List Node)
+  | .text _ => none
+  | .elem tag _ kids =>
+    match descend ctx (localName tag) with
+    | .skip => none
+    | .fail => some kids
+    | .into c => residualList c kids
+def residualList (ctx : Ctx) : List Node → Option (List Node)
+  | [] => none
+  | n :: rest =>
+    match residualNode ctx n with
+    | some r => some (if ctx.isInline then r ++ rest else r)
+    | none => residualList ctx rest
+end
+
+/-- `DecodeElement` succeeds on a `text:p` / `text:h` -/
+def paraDecodes (p : Node) : Bool := (residualList (.inline 0) p.kids).isNone
 
 /-! ### parseBodyElements: the streaming walk -/
 
+/-- state of the loop of `parseBodyElements`: `inBody`, the elements recorded, and `done` =
+`decoder.Token()` has answered `io.EOF` and the loop has ended (`break`) -/
 structure Walk where
   inBody : Bool
+  done : Bool := false
   acc : List Elem
 deriving Repr, Inhabited
 
@@ -285,21 +394,55 @@ def listElems (list : Node) : List Elem :=
 mutual
 /-- one subtree of the token stream: `office:text` switches the body on (start) and off
 (end); inside the body `p`, `h`, `list`, `table` are decoded whole (`DecodeElement` consumes
-the subtree), any other element is walked through -/
+the subtree) and recorded - unless the decoder gives up inside (`scanList` answers `some`):
+then nothing is recorded for the element, the walk goes on behind the refused start tag to the
+end of the paragraph the decoder gave up in, and there the loop ends (`done`); any other
+element is walked through.
+Once the loop has ended no token is read. -/
 def walkNode (defs : List StyleDef) : Node → Walk → Walk
   | .text _, w => w
   | .elem tag attrs kids, w =>
-    if tag == sOfficeText then
+    if w.done then w
+    else if tag == sOfficeText then
       { walkList defs kids { w with inBody := true } with inBody := false }
     else if !w.inBody then walkList defs kids w
-    else if localName tag == sP then { w with acc := w.acc ++ [.para (processParagraph (.elem tag attrs kids))] }
-    else if localName tag == sH then { w with acc := w.acc ++ [.para (processHeading defs (.elem tag attrs kids))] }
-    else if localName tag == sList then { w with acc := w.acc ++ listElems (.elem tag attrs kids) }
-    else if localName tag == sTable then { w with acc := w.acc ++ [.table (parseTable (.elem tag attrs kids))] }
+    else if localName tag == sP then
+      (match scanList defs (.inline 0) kids w with
+       | some w' => { w' with done := true }
+       | none => { w with acc := w.acc ++ [.para (processParagraph (.elem tag attrs kids))] })
+    else if localName tag == sH then
+      (match scanList defs (.inline 0) kids w with
+       | some w' => { w' with done := true }
+       | none => { w with acc := w.acc ++ [.para (processHeading defs (.elem tag attrs kids))] })
+    else if localName tag == sList then
+      (match scanList defs .list kids w with
+       | some w' => { w' with done := true }
+       | none => { w with acc := w.acc ++ listElems (.elem tag attrs kids) })
+    else if localName tag == sTable then
+      (match scanList defs .table kids w with
+       | some w' => { w' with done := true }
+       | none => { w with acc := w.acc ++ [.table (parseTable (.elem tag attrs kids))] })
     else walkList defs kids w
 def walkList (defs : List StyleDef) : List Node → Walk → Walk
   | [], w => w
   | n :: rest, w => walkList defs rest (walkNode defs n w)
+/-- the decoder `ctx` reads a child while `parseBodyElements` waits in `DecodeElement`:
+`none` = read to its end, nothing happens to the walk; `some w'` = the depth check failed below
+the child, `DecodeElement` returned the error, and the walk has gone on, as the ordinary body
+walk, over the rest of the paragraph it happened in (`w'` is the walk when `Token` says `io.EOF`) -/
+def scanNode (defs : List StyleDef) (ctx : Ctx) : Node → Walk → Option Walk
+  | .text _, _ => none
+  | .elem tag _ kids, w =>
+    match descend ctx (localName tag) with
+    | .skip => none
+    | .fail => some (walkList defs kids w)
+    | .into c => scanList defs c kids w
+def scanList (defs : List StyleDef) (ctx : Ctx) : List Node → Walk → Option Walk
+  | [], _ => none
+  | n :: rest, w =>
+    match scanNode defs ctx n w with
+    | some w' => some (if ctx.isInline then walkList defs rest w' else w')
+    | none => scanList defs ctx rest w
 end
 
 /-- the reader's element list for content.xml and an optional styles.xml -/
